@@ -563,6 +563,10 @@ fn decoy_block(seed: u64) -> RawBlock {
     for i in 0..charcnt {
         b.chars.push(if i + 1 == charcnt || r.chance(1, 4) { 0 } else { b'A' + r.below(26) as u8 });
     }
+    if seed % 7 == 3 && charcnt >= 6 {
+        // a magic-like byte sequence inside the ignored block
+        b.chars[..5].copy_from_slice(b"TZif2");
+    }
     let mut lt = 0i64;
     for k in 0..leapcnt {
         lt += 3_000_000 + r.below(1 << 26) as i64;
